@@ -643,6 +643,63 @@ func (vc *VC) callsViaCheck(fr *frame, st *State, site ssa.Instruction, recv Ter
 	}
 }
 
+// monitorLockState: the state term of the monitor's lock for the receiver of the function under verification.
+func (vc *VC) monitorLockState(st *State) (Term, bool) {
+	if vc.monitor == nil {
+		return Term{}, false
+	}
+	if vc.recvStruct != nil {
+		if lockPtr, ok := vc.recvStruct.F[vc.monitor.LockField]; ok {
+			if lt, isPtr := lockPtr.(PtrVal); isPtr {
+				return vc.readCell(st.heap, vc.lockStateLoc(Loc{canonicalPrefix(lt.Elem), lt.Loc.Idx})), true
+			}
+		}
+		return Term{}, false
+	}
+	if vc.recvTerm.IsZero() || vc.lockComp == "" {
+		return Term{}, false
+	}
+	return Select(vc.hget(st.heap, vc.lockComp), vc.recvTerm), true
+}
+
+// panicSafeCheck: code the CALLER supplied (a function-typed parameter of the function under verification, invoked
+// here or handed on to a callee that will invoke it) may panic or end its goroutine. If the monitor's lock is held at
+// such a call, its release has to be a deferred call - an Unlock that is an ordinary statement after the call is never
+// reached, and every later operation on the object blocks for ever.
+func (vc *VC) panicSafeCheck(fr *frame, st *State, site ssa.Instruction, c *ssa.CallCommon) {
+	if vc.monitor == nil || !fr.top || vc.dry != 0 {
+		return
+	}
+	isFuncParam := func(v ssa.Value) bool {
+		p, ok := v.(*ssa.Parameter)
+		if !ok {
+			return false
+		}
+		_, isSig := types.Unalias(p.Type()).Underlying().(*types.Signature)
+		return isSig
+	}
+	supplied := isFuncParam(c.Value)
+	for _, a := range c.Args {
+		supplied = supplied || isFuncParam(a)
+	}
+	if !supplied {
+		return
+	}
+	for _, d := range fr.defers {
+		if callee := d.call.Call.StaticCallee(); callee != nil {
+			switch callee.Name() {
+			case "Unlock", "RUnlock":
+				return
+			}
+		}
+	}
+	state, ok := vc.monitorLockState(st)
+	if !ok {
+		return
+	}
+	vc.oblige(st, "lock", "lock.panicsafe@"+vc.posHint(fr, site), vc.posString(site.Pos()), Eq(state, Zero))
+}
+
 func (vc *VC) guardedComp(comp string) bool {
 	if vc.monitor == nil {
 		return false
